@@ -20,7 +20,8 @@ prop("C16",
                 "in that stream the kernel state is ALSO judged right after every single event handler (before any "
                 "periodic sync): all flows walked on the real dump vs a from-scratch compile of the current cluster "
                 "(`event-state-denies-allowed` / `event-state-accepts-forbidden`; the stale membership UpdatePod leaves "
-                "behind is known finding `relabel-stale-membership-until-resync`, theorem `counter_relabel_stale`).",
+                "behind is known finding `relabel-stale-membership-until-resync`, theorem `counter_relabel_stale`). The generator also builds rules that share their FIRST selector peer (a crowd of 3..15 pods) "
+                "and go on with different peers, in one or several policies (corpus/C16/shared-first-peer.ops).",
      level_note="model of the compiler hand-written, tied to /repo by (T) regenerated prefixes / set-name formats / rule "
                 "templates / defaulting functions / shape facts (Generated/Policy.lean; template_* and fact_* theorems); the translator first brings every function into a canonical form (tools/factgen/cmd/policy/norm.go, harmless/NORMALISE.md: renamed locals, guard clauses, switch / range forms, inlined locals, helpers one level, Sprintf vs concatenation are invisible; rule word order, constants, guards and the order of side-effecting calls are not; unit tests norm_test.go) and "
                 "(X) equality of the canonical dump of the real code with the model's compile output on generated "
